@@ -229,44 +229,12 @@ def _families():
     return st.one_of(chains, cycles, wide, wide, tall, tall)
 
 
-def _geometric():
-    """Chains c_i X_i -> d_i X_{i+1} with coefficients 1..3, open (source and sink: every steady flux is a geometric
-    progression, max/min up to 3^7) or closed into a cycle (the positive conservation law is one), optionally with
-    every step reversible, species and reactions in generated order. Reaches the verdicts' numerical scale handling."""
-    sp = crn_gen.SPECIES
-
-    def build(coefs, mode, rev, perm_seed):
-        k = len(coefs)
-        names = list(sp[: k + 1])
-        rx = []
-        for i, (c, d) in enumerate(coefs):
-            a, b = names[i], names[(i + 1) % k] if mode == "cycle" else names[i + 1]
-            if a == b:
-                continue
-            rx.append([{a: c}, {b: d}, "r"])
-            if rev:
-                rx.append([{b: d}, {a: c}, "r"])
-        if mode == "open":
-            rx.append([{}, {names[0]: coefs[0][0]}, "q"])
-            rx.append([{names[k]: coefs[-1][1]}, {}, "q"])
-        rx = [rx[i] for i in perm_seed(list(range(len(rx))))] if rx else rx
-        return {"rx": rx}
-
-    return st.builds(
-        build,
-        st.lists(st.tuples(st.integers(1, 3), st.integers(1, 3)), min_size=3, max_size=7),
-        st.sampled_from(["open", "open", "cycle", "closed"]),
-        st.booleans(),
-        st.randoms(use_true_random=False).map(lambda r: (lambda xs: r.sample(xs, len(xs)))),
-    )
-
-
 def strat(tier):
     return st.one_of(crn_gen.net_strategy(max_species=7, max_rxn=6, max_coef=3), _families())
 
 
 def strat_geometric(tier):
-    return _geometric()
+    return crn_gen.geometric_nets()
 
 
 SUBS = [
